@@ -265,3 +265,83 @@ fn dia_q_guard_drop_while_panicking() {
 	kani::cover!(unwinding && which == 1, "collection_guard_unwinding");
 	kani::cover!(!unwinding, "normal_drop");
 }
+
+// ---- formatting a lock whose payload's own Debug impl panics (C17 on an unwinding path) ----
+
+use core::fmt::Write as _;
+struct Sink2;
+impl core::fmt::Write for Sink2 {
+	fn write_str(&mut self, _s: &str) -> core::fmt::Result {
+		Ok(())
+	}
+}
+type MPD = crate::mutex::Mutex<PD, VMutex>;
+type RPD = crate::rwlock::RwLock<PD, VRwLock>;
+
+/// formats through the twin under verification and through the real `Debug` impl in the native replay
+struct ViaM<'a>(&'a MPD, &'a Cell<bool>);
+impl core::fmt::Debug for ViaM<'_> {
+	fn fmt(&self, f: &mut core::fmt::Formatter<'_>) -> core::fmt::Result {
+		#[cfg(not(test))]
+		match self.0.d_fmt(f) {
+			Ok(r) => r,
+			Err(_) => {
+				self.1.set(true);
+				Err(core::fmt::Error)
+			}
+		}
+		#[cfg(test)]
+		core::fmt::Debug::fmt(self.0, f)
+	}
+}
+struct ViaR<'a>(&'a RPD, &'a Cell<bool>);
+impl core::fmt::Debug for ViaR<'_> {
+	fn fmt(&self, f: &mut core::fmt::Formatter<'_>) -> core::fmt::Result {
+		#[cfg(not(test))]
+		match self.0.d_fmt(f) {
+			Ok(r) => r,
+			Err(_) => {
+				self.1.set(true);
+				Err(core::fmt::Error)
+			}
+		}
+		#[cfg(test)]
+		core::fmt::Debug::fmt(self.0, f)
+	}
+}
+fn format_it(d: &dyn core::fmt::Debug) {
+	#[cfg(not(test))]
+	let _ = core::fmt::write(&mut Sink2, format_args!("{:?}", d));
+	#[cfg(test)]
+	let _ = std::panic::catch_unwind(std::panic::AssertUnwindSafe(|| core::fmt::write(&mut Sink2, format_args!("{:?}", d))));
+}
+
+dharness! {
+#[kani::unwind(4)]
+fn dia_q_debug_with_panicking_payload() {
+	let which: bool = kani::any();
+	let panics: bool = kani::any();
+	unsafe { PAYLOAD_PANICS = panics; }
+	let unwound = Cell::new(false);
+	if which {
+		let m = MPD::new(PD(1));
+		let s = &crate::mutex::verif_peek::raw(&m).0;
+		s.other.set(any_other_mutex());
+		let pre = s.snap();
+		format_it(&ViaM(&m, &unwound));
+		assert!(s.snap() == pre && s.balanced_and_free(), "C17_debug_leaves_hold_state_unchanged_even_if_the_payloads_debug_panics");
+		assert!(!crate::mutex::verif_peek::killed(&m), "C10_user_panics_never_make_a_plain_lock_unusable");
+	} else {
+		let r = RPD::new(PD(2));
+		let s = &crate::rwlock::verif_peek::raw(&r).0;
+		s.other.set(any_other_rw());
+		let pre = s.snap();
+		format_it(&ViaR(&r, &unwound));
+		assert!(s.snap() == pre && s.balanced_and_free(), "C17_debug_leaves_hold_state_unchanged_even_if_the_payloads_debug_panics");
+		assert!(!crate::rwlock::verif_peek::killed(&r), "C10_user_panics_never_make_a_plain_lock_unusable");
+	}
+	assert!(!w().blocking_issued, "C17_debug_never_waits");
+	kani::cover!(panics && which && unwound.get(), "mutex_payload_panicked");
+	kani::cover!(panics && !which && unwound.get(), "rwlock_payload_panicked");
+	kani::cover!(!panics, "clean");
+}}
